@@ -118,7 +118,7 @@ SUB_FAULTS = [
 ]
 
 
-LITERAL_BUDGET = 20
+LITERAL_BUDGET = 32
 
 
 def cases(rng, tier):
@@ -167,6 +167,22 @@ def extra_checks(rng, tier, g_, info):
         if msg:
             yield line, "option with a missing value (%s): %s" % (name, msg)
     info["missing_value_vectors"] = n
+    # odd --file targets: a regular file as parent directory, a trailing slash, an over-long name, a symlink loop, a
+    # dangling symlink — with every sub-command (the freshly drawn wallet of `new` included)
+    m = 0
+    subs = [sub_valid(rng) for _ in range(2 if tier == "quick" else 10)] + [["new"], ["new", "--mnemonic-len", "12"]]
+    for fsk in ("parentfile", "trailslash", "longname", "symloop", "dangling"):
+        for sv in subs:
+            argv = ["--file", "@F"] + (["--paranoia"] if rng.random() < 0.5 else []) + ["--interval", "0", "1"] + sv
+            line = "cli %s %s %s" % (fsk, hx(bytes(rng.getrandbits(8) for _ in range(40))), enc(argv))
+            out = impl.run(line)
+            m += 1
+            v = ok_val(out)
+            if v is None:
+                yield line, "CLI run could not be canonicalised"
+            elif v.startswith(("overwrote", "unexpected-files", "nonzero-status", "file-and-stdout", "existing-sibling")):
+                yield line, "--file target of class %s: CLI broke the output contract: %s" % (fsk, v[:120])
+    info["odd_file_targets"] = m
 
 
 def nontrivial(line, out):
@@ -323,6 +339,12 @@ def known_match(line, out, msg, known):
 
 def literal_ops(lit):
     ob = hx(bytes(range(40)))
-    yield "cli absent %s %s" % (ob, enc(["--account", str(lit), "--interval", "0", "1", "from-bip39-seed", SEED]))
-    yield "cli absent %s %s" % (ob, enc(["--interval", str(lit), str(lit + 1), "from-bip39-seed", SEED]))
-    yield "cli absent %s %s" % (ob, enc(["--paranoia", "--interval", "0", str(min(lit, 30)), "from-bip39-seed", SEED]))
+    if lit <= 30:
+        yield "cli absent %s %s" % (ob, enc(["--account", str(lit), "--paranoia", "--interval", "0", str(lit), "from-bip39-seed", SEED]))
+    elif lit <= 5000:
+        # a report of lit + 1 rows (a batch / page / buffer size in the code is crossed with certainty)
+        yield "cli absent %s %s" % (ob, enc(["--paranoia", "--interval", "0", str(lit + 1), "from-bip39-seed", SEED]))
+        yield "cli absent %s %s" % (ob, enc(["--account", str(lit), "--interval", "0", "1", "from-bip39-seed", SEED]))
+    else:
+        yield "cli absent %s %s" % (ob, enc(["--account", str(lit), "--interval", "0", "1", "from-bip39-seed", SEED]))
+        yield "cli absent %s %s" % (ob, enc(["--interval", str(lit), str(lit + 1), "from-bip39-seed", SEED]))
